@@ -50,6 +50,9 @@ WireChoices(nw) ==
   LET W == 0..(nw - 1)
   IN IF WireMode = "full" THEN {<<a, b, x, d>> : a \in W, b \in W, x \in W, d \in W}
      ELSE IF WireMode = "abc" THEN {<<a, b, x, 0>> : a \in W, b \in W, x \in W}
+     ELSE IF WireMode = "scen"      \* scenario generation: a thin but varied slice
+       THEN {<<a, b, x, d>> : a \in {0, nw - 2, nw - 1}, b \in {1, nw - 1},
+                              x \in {0, nw - 3}, d \in {0, nw - 1}}
      ELSE {<<a, b, 0, 0>> : a \in W, b \in W}
 
 Init == c = Start
@@ -98,6 +101,8 @@ CompressDeterministic ==
 DictsBijective ==
   LET r == C!CompressRows(c.rows, 1, C!BaseDict(TRUE), <<>>, <<>>)
   IN C!DictIsBijection(r.sd) /\ C!DictIsBijection(r.pd)
+
+SigmaIsNextInClass == C!Sigma(c) = C!SigmaDef(c)
 
 (* CapacityAgrees: the two routes succeed for exactly the same parameter
    sizes and then give identical keys *)
